@@ -10,9 +10,19 @@ import (
 // list of configurations a batch explores. Every random choice comes from one
 // splitmix64 stream seeded by VERIF_SEED.
 
-var workerChoices = []int{1, 2, 3, 4, 5, 8, 16}
+// worker counts (the NumCPU seam): small ones, the sandbox's own 16, and counts
+// at and above the number of samples (20 / 50), where a pool has idle workers
+var workerChoices = []int{1, 2, 3, 4, 5, 8, 16, 1, 2, 3, 4, 7, 12, 19, 20, 21, 32, 50, 51, 64}
 
-func genPolicy(r *simctl.Rand, estSteps int) simctl.Policy {
+// genPolicy draws a scheduling policy; the behaviour of the sync.Pool
+// replacement (always reuse / never / alternate) rides on the policy seed.
+func genPolicy(r *simctl.Rand, est int) simctl.Policy {
+	p := genPolicy0(r, est)
+	p.Pool = []int{0, 0, 0, 1, 2}[p.Seed%5]
+	return p
+}
+
+func genPolicy0(r *simctl.Rand, estSteps int) simctl.Policy {
 	switch r.Intn(10) {
 	case 0:
 		return simctl.Policy{Kind: "first"}
